@@ -39,6 +39,8 @@ type forest interface {
 	search(loc string, pattern map[string]interface{}, inherited bool) ([]string, error)
 	listRules(loc string, inherited bool) ([]string, error)
 	dispatch(loc string, event map[string]interface{}) ([]string, error)
+	// process runs the whole event (conditions and actions) and returns the action values
+	process(loc string, event map[string]interface{}) ([]string, error)
 }
 
 func ruleMap(loc, id, e string) map[string]interface{} {
@@ -81,6 +83,10 @@ func (f *coreForest) apply(o op) error {
 		_, err = l.SetParents(ctx, o.Parents)
 	case "enable":
 		err = l.EnableRule(ctx, o.Id, o.On)
+	case "clear":
+		err = l.Clear(ctx)
+	case "parentsFact":
+		_, err = l.AddFact(ctx, "", core.Map(ref.CloneMap(o.Fact)))
 	}
 	return err
 }
@@ -137,6 +143,19 @@ func (f *coreForest) dispatch(loc string, ev map[string]interface{}) ([]string, 
 	return ids, nil
 }
 
+func (f *coreForest) process(loc string, ev map[string]interface{}) ([]string, error) {
+	fr, cond := f.locs[loc].ProcessEvent(drv.Ctx(), core.Map(ref.CloneMap(ev)))
+	if cond != nil {
+		return nil, fmt.Errorf("%s", cond.Msg)
+	}
+	vs := []string{}
+	for _, v := range fr.Values {
+		vs = append(vs, fmt.Sprint(v))
+	}
+	sort.Strings(vs)
+	return vs, nil
+}
+
 // ---- sys.System ----
 type sysForest struct{ s *sys.System }
 
@@ -169,6 +188,10 @@ func (f *sysForest) apply(o op) error {
 		_, err = f.s.SetParents(ctx, o.Loc, o.Parents)
 	case "enable":
 		err = f.s.EnableRule(ctx, o.Loc, o.Id, o.On)
+	case "clear":
+		err = f.s.ClearLocation(ctx, o.Loc)
+	case "parentsFact":
+		_, err = f.s.AddFact(ctx, o.Loc, "", js(o.Fact))
 	}
 	return err
 }
@@ -208,6 +231,10 @@ func (f *sysForest) dispatch(loc string, ev map[string]interface{}) ([]string, e
 	}
 	sort.Strings(ids)
 	return ids, nil
+}
+
+func (f *sysForest) process(loc string, ev map[string]interface{}) ([]string, error) {
+	return f.dispatch(loc, ev)
 }
 
 // ---- model ----
@@ -347,7 +374,7 @@ func campaign(r *rep.Report, e rep.Env) {
 			li := g.Intn(nloc)
 			l := names[li]
 			o := op{Loc: l}
-			switch k := g.Intn(14); {
+			switch k := g.Intn(17); {
 			case k < 5:
 				o.Op, o.Id = "addFact", fmt.Sprintf("%s-f%d", l, g.Intn(3))
 				o.Fact = map[string]interface{}{"a": gen.Strs[g.Intn(4)], "k": "v", "at": l}
@@ -361,18 +388,76 @@ func campaign(r *rep.Report, e rep.Env) {
 			case k < 11:
 				// flag in l for a rule of some (possibly parent) location
 				o.Op, o.Id, o.On = "enable", fmt.Sprintf("%s-r%d", names[g.Intn(nloc)], g.Intn(2)), g.Intn(2) == 0
+			case k < 12:
+				// a rule with a pattern condition (an inherited search) whose action writes through
+				// the JavaScript location functions: the write must land in the event's location
+				o.Op, o.Id = "addRule", fmt.Sprintf("%s-mk", l)
+				o.Fact = map[string]interface{}{"when": map[string]interface{}{"pattern": map[string]interface{}{"mk": "?n"}},
+					"condition": map[string]interface{}{"pattern": map[string]interface{}{"k": "v", "at": "?where"}},
+					"action":    map[string]interface{}{"code": "Env.AddFact('made-' + ruleId + '-' + n, {a:'made', k:'w', at:location}); location"}}
+			case k < 13:
+				o.Op = "mkEvent"
+				o.Id = fmt.Sprint(s)
 			default:
-				// parents only point to higher-numbered locations: chains, fans, diamonds, never a loop
-				o.Op = "setParents"
-				o.Parents = []string{}
-				for j := li + 1; j < nloc; j++ {
-					if g.Intn(2) == 0 {
-						o.Parents = append(o.Parents, names[j])
+				// parents only point to higher-numbered locations: chains, fans, diamonds, never a loop;
+				// the parent set is changed through SetParents, through the `!parents` property fact,
+				// and dropped by clearing the location
+				o.Op = []string{"setParents", "setParents", "parentsFact", "clear"}[g.Intn(4)]
+				if o.Op != "clear" {
+					o.Parents = []string{}
+					for j := li + 1; j < nloc; j++ {
+						if g.Intn(2) == 0 {
+							o.Parents = append(o.Parents, names[j])
+						}
+					}
+					if o.Op == "parentsFact" {
+						ps := make([]interface{}, len(o.Parents))
+						for i, p := range o.Parents {
+							ps[i] = p
+						}
+						o.Fact = map[string]interface{}{"!parents": ps}
 					}
 				}
 			}
 			r.Journal(rep.J{"via": via, "state": kind, "hist": hi, "op": o})
 			run = append(run, o)
+			if o.Op == "mkEvent" {
+				ev := map[string]interface{}{"mk": o.Id}
+				anc, loop := m.ancestors(l)
+				if loop {
+					continue
+				}
+				// expected: every visible, enabled mk rule whose condition finds >=1 visible fact writes into l
+				var facts []map[string]interface{}
+				for _, a := range anc {
+					for _, it := range m.locs[a].Items {
+						facts = append(facts, it)
+					}
+				}
+				expectVals := []string{}
+				for _, a := range anc {
+					for id := range m.locs[a].Dispatch(ev, m.locs[l]) {
+						n := len(ref.Eval(ref.Q{"pattern": map[string]interface{}{"k": "v", "at": "?where"}}, facts, []ref.B{{}}))
+						for i := 0; i < n; i++ {
+							expectVals = append(expectVals, l)
+						}
+						if n > 0 {
+							m.locs[l].Put("made-"+id+"-"+o.Id, map[string]interface{}{"a": "made", "k": "w", "at": l})
+						}
+					}
+				}
+				sort.Strings(expectVals)
+				got, err := f.process(l, ev)
+				r.Count("action_events", 1)
+				if err != nil {
+					r.Violate("", "event with a writing action failed: "+err.Error(), rep.J{"via": via, "state": kind, "history": run})
+				} else if !ref.SameSet(got, expectVals) {
+					r.Violate("", "the actions of an event did not run in the event's own location (values name the location each action saw)", rep.J{"via": via, "state": kind, "history": run, "got": got, "want": expectVals})
+				}
+				r.Case(len(m.parents) > 0, via+kind+ref.Canon(run))
+				check(r, f, m, names, run, via, kind)
+				continue
+			}
 			err := f.apply(o)
 			if err != nil {
 				if via == "sys" && strings.Contains(err.Error(), "not found") && (o.Op == "remFact" || o.Op == "remRule" || (o.Op == "enable" && o.On)) {
@@ -401,13 +486,20 @@ func campaign(r *rep.Report, e rep.Env) {
 				} else {
 					ml.Put(ref.PropId(o.Id, "disabled"), map[string]interface{}{"id": o.Id, "!disabled": true, "deleteWith": []interface{}{o.Id}})
 				}
-			case "setParents":
+			case "clear":
+				ml.Clear()
+				delete(m.parents, l)
+			case "setParents", "parentsFact":
 				m.parents[l] = o.Parents
 				ps := make([]interface{}, len(o.Parents))
 				for i, p := range o.Parents {
 					ps[i] = p
 				}
-				ml.Put(ref.PropId("", "parents"), map[string]interface{}{"id": "", "!parents": ps, "deleteWith": []interface{}{""}})
+				if o.Op == "parentsFact" {
+					ml.Put(ref.PropId("", "parents"), o.Fact) // stored as given
+				} else {
+					ml.Put(ref.PropId("", "parents"), map[string]interface{}{"id": "", "!parents": ps, "deleteWith": []interface{}{""}})
+				}
 			}
 			edges := 0
 			for _, ps := range m.parents {
